@@ -5,6 +5,6 @@ OUT="${1:-/tmp/seedmatrix.log}"; : > "$OUT"
 for d in seeded/*/; do
   id=$(basename $d)
   [ -f "$d/patch.diff" ] || continue
-  P=$(python3 -c "import json;print(json.load(open('$d/meta.json')).get('property','${id:0:3}'))" 2>/dev/null || echo ${id:0:3})
+  P=$(python3 -c "import json;m=json.load(open('$d/meta.json'));print(m.get('check_with') or m.get('property','${id:0:3}'))" 2>/dev/null || echo ${id:0:3})
   tools/runseed.sh $id $P 2>&1 | tail -1 | tee -a "$OUT"
 done
